@@ -21,6 +21,16 @@ KEY_TWICE = 'fill()-continues-from-cached-counter-of-an-earlier-fill'
 KEY_MEMPOOL = 'fill()-ignores-own-operations-pending-in-the-mempool'
 
 
+# autofill with the documented keyword overrides; for the model (and for the property) each of them is an autofill
+_KW = {'x': dict(fee=5000, gas_limit=4000, storage_limit=0), 'y': dict(gas_limit=4000, storage_limit=300), 'z': dict(fee=7000),
+       'w': dict(fee=0, gas_limit=6000, storage_limit=0)}
+KW_AUTOFILL = {k + t: v for k, v in _KW.items() for t in 'TC'}
+
+
+def plain_events(evs):
+    return ['a' + e[1] if e in KW_AUTOFILL else e for e in evs]
+
+
 def _dest():
     from harness import stubnode as sn
     return sn.test_key('ed', 7).public_key_hash()
@@ -56,14 +66,17 @@ def run_history(c0, p0, events, curve='ed'):
             tmpl = cli.bulk(*ops) if k > 1 else ops[0]
             cur, stamp, origin, fills_in_ctx = None, None, None, 0
             toks.append('ok')
-        elif ev in ('fT', 'fC', 'aT', 'aC'):
+        elif ev in ('fT', 'fC', 'aT', 'aC') or ev in KW_AUTOFILL:
+            kw = {}
+            if ev in KW_AUTOFILL:      # autofill with explicit fee / limits: the counters are still the client's to choose
+                kw, ev = KW_AUTOFILL[ev], 'a' + ev[1]
             target = tmpl if ev[1] == 'T' else cur
             if target is None:
                 toks.append('nogroup')
                 continue
             pend = node.pending_count(pkh)
             try:
-                g = target.fill() if ev[0] == 'f' else target.autofill()
+                g = target.fill() if ev[0] == 'f' else target.autofill(**kw)
             except RpcError as e:
                 if ev[0] == 'a' and 'counter_in_the' in str(e):
                     if ev[1] == 'T':
@@ -179,6 +192,8 @@ def gen_random(rng, max_len):
         else:
             evs.append(rng.choices(syms, weights)[0])
     evs = evs[:max_len]
+    if rng.random() < 0.3:      # the same history with explicit fee / limits on (some of) the autofill calls
+        evs = [rng.choice('xyzw') + e[1] if e in ('aT', 'aC') and rng.random() < 0.7 else e for e in evs]
     c0 = rng.choice([0, 100, 100, 127, 16383, 2 ** 32, 2 ** 64 - 1, rng.getrandbits(rng.randrange(1, 65))])
     p0 = rng.choice([0, 0, 0, 1, 2, 5])
     return c0, p0, evs
@@ -194,7 +209,7 @@ def run(ctx):
     ctx.assumptions += [
         'node rules are my transcription of Octez: injection demands counter+pending+1.., run_operation (head context) demands counter+1.., '
         'bake moves pending contents into the counter; the mempool RPC answers in the `applied`/`unprocessed` format pytezos reads',
-        'one account, one context lineage at a time (`new` drops the previous group); explicit counter= arguments are not exercised',
+        'one account, one context lineage at a time (`new` drops the previous group); explicit counter= arguments are not exercised; autofill(fee=/gas_limit=/storage_limit=) is exercised and is an autofill for the model',
         '`fresh` = counters computed (fill of the unfilled group / successful autofill) after the last accepted injection or bake; '
         'a fill() of an already filled group computes nothing (API contract: only unfilled fields are filled) and does not refresh',
     ]
@@ -219,7 +234,10 @@ def run(ctx):
                 for tail in itertools.product(SYMS, repeat=ln):
                     cases.append((100, p0, ['n1', *tail]))
         ctx.extra['exhaustive_subspace'] = 'all histories of <= 6 events (first event n1|n2, then <= 5 of 10 symbols) from (c=100,p=0); <= 5 events from p=1,2'
-    lines = [f'{c} {p} ' + ' '.join(evs) for c, p, evs in cases]
+    for kw in 'xyzw':
+        cases += [(100, 1, ['n1', kw + 'T', 's', 'iO']), (100, 0, ['n1', 'aT', 's', 'iO', 'n1', kw + 'T', 's', 'iO']),
+                  (100, 2, ['n2', 'fT', kw + 'C', 's', 'iO'])]
+    lines = [f'{c} {p} ' + ' '.join(plain_events(evs)) for c, p, evs in cases]
     model = ctx.model(lines)
     shrunk = {}
     jobs = [(c0, p0, evs, ('ed', 'sp', 'p2')[idx % 3] if idx % 7 == 0 else 'ed') for idx, (c0, p0, evs) in enumerate(cases)]
@@ -234,6 +252,9 @@ def run(ctx):
         ctx.case({'c': c0, 'p': p0, 'events': ' '.join(evs)}, nontrivial=n_sent > 0)
         ctx.count('length', min(len(evs), 40) // 4 * 4)
         ctx.count('payloads_posted', min(n_sent, 5))
+        for e in evs:
+            if e in KW_AUTOFILL:
+                ctx.count('autofill_keywords', '+'.join(sorted(KW_AUTOFILL[e])))
         for t in toks:
             ctx.count('outcome', t.split(':')[0] + (':' + ':'.join(t.split(':')[2:4]) if t.startswith('sent:') else ''))
         for v in viol:
